@@ -1026,6 +1026,22 @@ func TestReplayAll(t *testing.T) {
 			return "", ""
 		})
 	})
+	t.Run("dirstorm", func(t *testing.T) {
+		vf.Replay(t, "dirstorm", func(steps []json.RawMessage) (string, string) {
+			for _, raw := range steps {
+				var p Program
+				if err := json.Unmarshal(raw, &p); err != nil || len(p.Threads) == 0 {
+					continue
+				}
+				for i := 0; i < 5; i++ { // real goroutines: the window is hit with some probability per run
+					if sig, msg := runDirStorm(p); sig != "" {
+						return sig, msg
+					}
+				}
+			}
+			return "", ""
+		})
+	})
 	for _, leg := range []string{"observers", "observers-canon"} {
 		leg := leg
 		t.Run(leg, func(t *testing.T) {
@@ -1045,4 +1061,190 @@ func TestReplayAll(t *testing.T) {
 			})
 		})
 	}
+}
+
+// ------------------------------------------------------------------ directory storm: listings while records are rewritten
+
+// TestDirStorm: a directory "a" with children that exist for the WHOLE run (files a/b, a/c, directory a/d holding a/d/e) plus
+// a volatile child a/v. Mutator goroutines rewrite the records of the permanent children over and over (chmod, writes and
+// truncates through their own handle, re-creating opens, failing exclusive creates / mkdirs) and create / remove a/v;
+// observer goroutines list, stat, read and try to remove the directories, all on real cores. Listing reads the record map
+// outside the store's transactions, so a window inside ONE store.Set is visible to it and to nothing the cooperative
+// scheduler can pre-empt. Oracle (no sequential order explains anything else): every listing of a directory names every
+// permanent child with the right kind, Stat of a permanent child succeeds, a/c keeps its bytes, Remove of a non-empty
+// directory fails, operations that succeed (fail) in every sequential order succeed (fail), and the permanent children are
+// all there at the end.
+func TestDirStorm(t *testing.T) {
+	vf.Check(t, "dirstorm", func(rt *rapid.T, rec *vf.Rec) {
+		p := genDirStorm(rt)
+		rec.Step(p)
+		rec.NonTrivial()
+		if sig, msg := runDirStorm(p); sig != "" {
+			rec.Failf(rt, sig, "%s", msg)
+		}
+	})
+}
+
+var dirStormSetup = []Op{
+	{K: "mkdir", P: "a"},
+	{K: "hopen", P: "a/b", Flag: os.O_RDWR | os.O_CREATE}, {K: "hwrite", Data: "b0"}, {K: "hclose"},
+	{K: "hopen", P: "a/c", Flag: os.O_RDWR | os.O_CREATE}, {K: "hwrite", Data: "c0"}, {K: "hclose"},
+	{K: "mkdir", P: "a/d"}, {K: "touch", P: "a/d/e"},
+}
+
+func genDirStorm(rt *rapid.T) Program {
+	p := Program{Setup: dirStormSetup}
+	nt := rapid.IntRange(2, 4).Draw(rt, "threads")
+	mutators := []Op{
+		{K: "chmod", P: "a/b"}, {K: "chmod", P: "a/b"}, {K: "chmod", P: "a/c"}, {K: "chmod", P: "a/d"}, {K: "chmod", P: "a/d/e"},
+		{K: "hwrite", Data: "XY"}, {K: "htrunc", N: 1}, {K: "htrunc", N: 3}, {K: "touch", P: "a/b"}, {K: "touch", P: "a/d/e"},
+		{K: "excl", P: "a/c"}, {K: "mkdir", P: "a/d"}, {K: "touch", P: "a/v"}, {K: "remove", P: "a/v"},
+	}
+	observers := []Op{
+		{K: "readdir", P: "a"}, {K: "readdir", P: "a"}, {K: "readdir", P: "a"}, {K: "readdir", P: "a/d"}, {K: "readdir", P: "."},
+		{K: "stat", P: "a/b"}, {K: "stat", P: "a/c"}, {K: "stat", P: "a/d"}, {K: "stat", P: "a/d/e"}, {K: "cat", P: "a/c"},
+		{K: "remove", P: "a"}, {K: "remove", P: "a/d"},
+	}
+	for th := 0; th < nt; th++ {
+		// thread 0 mutates, thread 1 observes, the others are drawn
+		mut := th == 0 || (th > 1 && rapid.Bool().Draw(rt, "mutator"))
+		var body []Op
+		menu := observers
+		if mut {
+			menu = mutators
+			body = append(body, Op{K: "hopen", P: "a/b", Flag: os.O_RDWR})
+		} else {
+			body = append(body, Op{K: "stat", P: "."})
+		}
+		n := rapid.IntRange(1, 4).Draw(rt, "nops")
+		for i := 0; i < n; i++ {
+			body = append(body, rapid.SampledFrom(menu).Draw(rt, "op"))
+		}
+		p.Threads = append(p.Threads, body)
+	}
+	return p
+}
+
+// dirStormVerdict judges one result: "" if some sequential order explains it.
+func dirStormVerdict(o Op, r string) string {
+	has := func(list string, name string) bool {
+		for _, n := range strings.Fields(strings.TrimSuffix(strings.TrimPrefix(list, "ok:["), "]")) {
+			if n == name {
+				return true
+			}
+		}
+		return false
+	}
+	need := func(names ...string) string {
+		if !strings.HasPrefix(r, "ok:[") {
+			return "listing-failed"
+		}
+		for _, n := range names {
+			if !has(r, n) {
+				return "listing-misses-entry"
+			}
+		}
+		return ""
+	}
+	switch o.K {
+	case "readdir":
+		switch o.P {
+		case "a":
+			return need("b", "c", "d/")
+		case "a/d":
+			return need("e")
+		case ".":
+			return need("a/")
+		}
+	case "stat":
+		want := "ok:file"
+		if o.P == "a/d" || o.P == "." {
+			want = "ok:dir"
+		}
+		if !strings.HasPrefix(r, want) {
+			return "stat-of-permanent-entry"
+		}
+	case "cat":
+		if r != "ok:c0" {
+			return "contents-of-untouched-file"
+		}
+	case "remove":
+		if o.P != "a/v" && !strings.HasPrefix(r, "err:") {
+			return "removed-non-empty-directory"
+		}
+	case "chmod", "hwrite", "htrunc", "hopen":
+		if !strings.HasPrefix(r, "ok") {
+			return "error-result"
+		}
+	case "touch":
+		if o.P != "a/v" && r != "ok" {
+			return "error-result"
+		}
+	case "excl", "mkdir":
+		if !strings.HasPrefix(r, "err:") {
+			return "created-over-existing-entry"
+		}
+	}
+	return ""
+}
+
+func runDirStorm(p Program) (string, string) {
+	for rep := 0; rep < 3; rep++ {
+		w := newPlainWorld(p)
+		var wg sync.WaitGroup
+		panics := make(chan string, 8)
+		bad := make(chan [2]string, 8)
+		start := make(chan struct{})
+		for th := range p.Threads {
+			th := th
+			wg.Add(1)
+			go func() {
+				defer wg.Done()
+				defer func() {
+					if r := recover(); r != nil {
+						panics <- fmt.Sprint(r)
+					}
+				}()
+				_ = apply(w, th, p.Threads[th][0])
+				<-start
+				for iter := 0; iter < 300; iter++ {
+					for _, o := range p.Threads[th][1:] {
+						r := apply(w, th, o)
+						if v := dirStormVerdict(o, r); v != "" {
+							select {
+							case bad <- [2]string{v, fmt.Sprintf("thread %d iteration %d: %v = %s", th, iter, o, r)}:
+							default:
+							}
+							return
+						}
+					}
+				}
+			}()
+		}
+		close(start)
+		done := make(chan struct{})
+		go func() { wg.Wait(); close(done) }()
+		select {
+		case <-done:
+		case <-time.After(vf.WatchdogDur()):
+			return "C15 dirstorm:deadlock", fmt.Sprintf("program %v did not finish when run on real goroutines", p.Threads)
+		}
+		select {
+		case m := <-panics:
+			return "C15 dirstorm:panic", fmt.Sprintf("program %v: %s", p.Threads, m)
+		default:
+		}
+		select {
+		case m := <-bad:
+			return "C15 dirstorm:" + m[0], fmt.Sprintf("program %v: %s -- a/b, a/c, a/d and a/d/e exist from before the first to after the last operation, so no sequential order of the operations gives this result", p.Threads, m[1])
+		default:
+		}
+		snap := snapString(w.fs)
+		for _, k := range []string{"a/b ", "a/c ", "a/d/ ", "a/d/e "} {
+			if !strings.Contains(";"+snap, ";"+k) {
+				return "C15 dirstorm:permanent-entry-lost", fmt.Sprintf("after program %v the tree is %s: %s is gone though nothing removes it", p.Threads, snap, k)
+			}
+		}
+	}
+	return "", ""
 }
